@@ -778,23 +778,8 @@ class Engine:
             if not cur:
                 break
             take, rest = set(), set()
-            for s in cur:
-                d = sp.match_case(node.subject, case.pattern, s, depth)
-                if d is True and case.guard is None:
-                    take.add(s)
-                elif d is False:
-                    rest.add(s)
-                else:
-                    if case.guard is not None and d is True:
-                        t, f, ab = self.cond(case.guard, {s}, depth)
-                        out.merge_abrupt(ab)
-                        take |= t
-                        rest |= f
-                    else:
-                        self.forks += 1
-                        take.add(s)
-                        rest.add(s)
             # captures of a class pattern (`case X(attr=name)` / `case X() as name`) are bound like `name = subject.attr` / `name = subject`
+            # (before the guard is evaluated, as in Python)
             binds = []
             pat = case.pattern
             if isinstance(pat, ast.MatchAs) and pat.pattern is not None and pat.name:
@@ -807,9 +792,29 @@ class Engine:
                 for sub in pat.patterns:
                     if isinstance(sub, ast.MatchAs) and sub.pattern is None and sub.name:
                         binds.append((sub.name, None))  # positional capture: which attribute depends on __match_args__ - unknown value
-            for name, vexpr in binds:
-                tgt = ast.copy_location(ast.Name(id=name, ctx=ast.Store()), case.pattern)
-                take = {sp.bind(tgt, vexpr, s, depth) if vexpr is not None else sp.bind(tgt, None, s, depth, value=UNKNOWN) for s in take}
+
+            def bound(s):
+                for name, vexpr in binds:
+                    tgt = ast.copy_location(ast.Name(id=name, ctx=ast.Store()), case.pattern)
+                    s = sp.bind(tgt, vexpr, s, depth) if vexpr is not None else sp.bind(tgt, None, s, depth, value=UNKNOWN)
+                return s
+
+            for s in cur:
+                d = sp.match_case(node.subject, case.pattern, s, depth)
+                if d is True and case.guard is None:
+                    take.add(bound(s))
+                elif d is False:
+                    rest.add(s)
+                else:
+                    if case.guard is not None and d is True:
+                        t, f, ab = self.cond(case.guard, {bound(s)}, depth)
+                        out.merge_abrupt(ab)
+                        take |= t
+                        rest |= f
+                    else:
+                        self.forks += 1
+                        take.add(bound(s))
+                        rest.add(s)
             if sp.record_conds:
                 cexpr = pattern_to_cond(node.subject, case.pattern)
                 if cexpr is not None and not (isinstance(cexpr, ast.Constant)):
